@@ -226,6 +226,24 @@ def inline_new_helpers(facts, d, norm, depth=0, stack=()):
             raw = cst.get('fn')
             if not raw:
                 continue
+            if norm(raw) == 'std::convert::Into::into' and len(t['args']) == 1 and t.get('dest') and not t['dest']['p']:
+                # `x.into()` resolves to the blanket impl in std; when the target type has a crate-local
+                # `impl From<typeof x>` that is new on this tree, the call IS that `from` (so it can be spliced)
+                dty = d['locals'][t['dest']['l']]
+                key = '<%s as std::convert::From>::from' % norm(dty.split('<')[0]) if dty else None
+                cands_ = [p_ for p_ in facts.norm_index.get(key, [])] if key else []
+                a0 = t['args'][0]
+                aty = d['locals'][a0['pl']['l']] if a0.get('k') in ('copy', 'move') and not a0['pl']['p'] else None
+                pick = []
+                for p_ in cands_:
+                    for l_ in facts._raw[p_]:
+                        import json as _json
+                        cd_ = _json.loads(l_)
+                        if cd_.get('nargs') == 1 and (aty is None or cd_['locals'][1] == aty):
+                            pick.append(p_)
+                if len(set(pick)) == 1 and key not in base:
+                    cst = dict(cst)
+                    cst['res'] = pick[0]
             for cand in (cst.get('res'), raw):
                 if not cand:
                     continue
@@ -444,6 +462,11 @@ def _emit_fn_value_call(facts, d, norm, fop, arg_ops, dest, target, ln, depth):
         b = _new_block(d, [], {'k': 'call', 'f': {'k': 'const', 'c': dict(c)}, 'args': list(arg_ops), 'dest': dest,
                                'target': target, 'unwind': None, 'ln': ln, 'x': False, 'fx': False})
         paths = facts.norm_index.get(norm(c['fn']), [])
+        base_ = getattr(facts, 'baseline', None) or {}
+        if norm(c['fn']) in base_ and norm(c['fn']) not in getattr(facts, '_resigned', ()):
+            # a function of the reference tree handed over by name (`dispatch(euclidean)`): the call through the
+            # function value is a direct call of that function - it keeps its name for the rules that look for it
+            return b
         if len(paths) == 1 and len(facts._raw[paths[0]]) == 1:
             cd = facts.load_dicts(paths[0])[0]
             if cd['kind'] in ('Fn', 'AssocFn') and cd['nargs'] == len(arg_ops):
@@ -513,6 +536,21 @@ def _desugar_one(facts, d, norm, bb, kind, depth):
         if fop['k'] == 'const':
             paths = facts.norm_index.get(norm(fop['c']['fn']), [])
             if len(paths) != 1:
+                # a tuple-variant / tuple-struct constructor handed over as a function (`make: Commands::FindBaked`):
+                # calling it builds that variant
+                np_c = norm(fop['c']['fn'])
+                if '::' in np_c:
+                    en, vn = np_c.rsplit('::', 1)
+                    adt_ = getattr(facts, 'adts', {}).get(en) or getattr(facts, 'adts', {}).get(np_c)
+                    if adt_ is not None:
+                        vs = [v_ for v_ in adt_.get('variants', []) if v_.get('name') == vn]
+                        if len(vs) == 1 and len(vs[0].get('fields', [])) == len(ops):
+                            raw_adt = adt_.get('path', en)
+                            agg = {'k': 'agg', 'ak': 'adt', 'adt': raw_adt, 'v': vn,
+                                   'fields': [f_.get('name', str(k_)) for k_, f_ in enumerate(vs[0]['fields'])], 'ops': ops}
+                            nb = _new_block(d, [_assign(D, agg, ln)], _goto(T))
+                            blk['t'] = _goto(nb)
+                            return True
                 return False           # a std function passed by name: leave the call as it is
         call = _emit_fn_value_call(facts, d, norm, fop, ops, D, T, ln, depth)
         if call is None:
@@ -812,10 +850,59 @@ def flags_as_set(d, norm):
     return d
 
 
+def erase_newtypes(facts, d, norm):
+    """private single-field wrapper structs that are new on this tree (`struct TrackIdSequence(u64)`,
+    `struct FixedWeight(i64)`, `struct ShardId(usize)`) are transparent: building one is a move of the wrapped value,
+    projecting its field is the value itself, its type reads as the wrapped type.  Their (new) methods and
+    conversions are spliced in by the inliner, so a counter kept in a newtype is the counter."""
+    nts = getattr(facts, 'new_newtypes', None)
+    if not nts:
+        return d
+    n = [0]
+
+    def is_nt(adt):
+        return bool(adt) and norm(adt) in nts
+
+    def fix_place(pl):
+        p = pl.get('p')
+        if isinstance(p, list) and any(isinstance(e, dict) and is_nt(e.get('adt')) for e in p):
+            pl['p'] = [e for e in p if not (isinstance(e, dict) and is_nt(e.get('adt')))]
+            n[0] += 1
+
+    def walk(x):
+        if isinstance(x, dict):
+            if 'l' in x and isinstance(x.get('p'), list):
+                fix_place(x)
+            for v in x.values():
+                walk(v)
+        elif isinstance(x, list):
+            for v in x:
+                walk(v)
+
+    for blk in d['blocks']:
+        for st in blk['st']:
+            if st.get('k') == 'assign':
+                rv = st['rv']
+                if rv.get('k') == 'agg' and rv.get('ak') == 'adt' and is_nt(rv.get('adt')) and len(rv.get('ops', [])) == 1:
+                    st['rv'] = {'k': 'use', 'op': rv['ops'][0]}
+                    n[0] += 1
+        walk(blk['st'])
+        walk(blk['t'])
+    if n[0]:
+        import re as _re
+        for i_, ty in enumerate(d['locals']):
+            for p_, inner in nts.items():
+                leaf = p_
+                if leaf in ty:
+                    d['locals'][i_] = ty = _re.sub(_re.escape(leaf) + r'(<[^<>]*>)?', inner, ty)
+        d['erased_newtypes'] = n[0]
+    return d
+
+
 def prepare_body(facts, d, norm, depth=0):
     """all normalisations of one body dict: std combinators desugared, new private helpers inlined"""
     if d['kind'] not in ('Fn', 'AssocFn', 'Closure'):
-        return d
+        return erase_newtypes(facts, d, norm)
     d = flags_as_set(d, norm)
     d = desugar_combinators(facts, d, norm, depth)
     n0 = len(d.get('inlined', []))
@@ -824,4 +911,5 @@ def prepare_body(facts, d, norm, depth=0):
         d = desugar_combinators(facts, d, norm, depth)
         # writes through `&mut field` parameters of spliced helpers become direct field writes
         d = forward_refs(d)
+    d = erase_newtypes(facts, d, norm)
     return d
